@@ -1,0 +1,102 @@
+//go:build verif
+
+package simhook
+
+import "io"
+
+// Enabled reports whether the simulation hooks are compiled in.
+const Enabled = true
+
+// Handler is implemented by the simulator.
+type Handler interface {
+	// Spawn announces that the running task is about to start a goroutine
+	// identified by key. Not a yield point.
+	Spawn(key any)
+	// Start is the first call of the new goroutine: it parks until scheduled.
+	Start(key any)
+	// Exit is the last call of a goroutine before it signals completion.
+	Exit(key any)
+	// Join parks the running task until all the tasks it spawned have exited.
+	Join()
+	// Point is a named yield point; arg is a site-specific value (block id,
+	// failure flag). It may panic with an injected error.
+	Point(name string, arg int)
+	// Spin is the yield point inside a spin loop; seen is the value just
+	// loaded and want the value the task waits for.
+	Spin(name string, seen, want int32)
+	// Corrupt lets the simulator damage a task-private buffer.
+	Corrupt(site string, buf []byte)
+	// Recovered reports a recovered panic value.
+	Recovered(r any)
+	WrapWriteCloser(w io.WriteCloser) io.WriteCloser
+	WrapReadCloser(r io.ReadCloser) io.ReadCloser
+}
+
+// H is nil unless a simulation is active; nil means every hook is inert.
+var H Handler
+
+func Active() bool { return H != nil }
+
+func Spawn(key any) {
+	if h := H; h != nil {
+		h.Spawn(key)
+	}
+}
+
+func Start(key any) {
+	if h := H; h != nil {
+		h.Start(key)
+	}
+}
+
+func Exit(key any) {
+	if h := H; h != nil {
+		h.Exit(key)
+	}
+}
+
+func Join() {
+	if h := H; h != nil {
+		h.Join()
+	}
+}
+
+func Point(name string, arg int) {
+	if h := H; h != nil {
+		h.Point(name, arg)
+	}
+}
+
+func Spin(name string, seen, want int32) {
+	if h := H; h != nil {
+		h.Spin(name, seen, want)
+	}
+}
+
+func Corrupt(site string, buf []byte) {
+	if h := H; h != nil {
+		h.Corrupt(site, buf)
+	}
+}
+
+func Recovered(r any) {
+	if h := H; h != nil {
+		h.Recovered(r)
+	}
+}
+
+func WrapWriteCloser(w io.WriteCloser) io.WriteCloser {
+	if h := H; h != nil {
+		return h.WrapWriteCloser(w)
+	}
+
+	return w
+}
+
+func WrapReadCloser(r io.ReadCloser) io.ReadCloser {
+	if h := H; h != nil {
+		return h.WrapReadCloser(r)
+	}
+
+	return r
+}
